@@ -384,6 +384,20 @@ func c11Exec(in []string) []string {
 			for i := 0; i < c.k; i++ {
 				gets = append(gets, append([]byte{}, req.GetBody()...))
 			}
+			// what else a signing writer may look at: it must be what the operation set (a difference is
+			// reported as one more, impossible, body)
+			fileCount := 0
+			for _, fs := range req.GetFileParam() {
+				fileCount += len(fs)
+			}
+			wantFiles := 0
+			for _, fs := range c.files {
+				wantFiles += len(fs)
+			}
+			if req.GetMethod() != c.method || req.GetPath() != "/x" || fileCount != wantFiles ||
+				(payload == nil) != (req.GetBodyParam() == nil) {
+				gets = append(gets, []byte("getter-mismatch:"+req.GetMethod()+" "+req.GetPath()))
+			}
 			return nil
 		})
 	}
